@@ -537,6 +537,12 @@ pub fn judge(case: &Case, k: u64, bytes: &[u8], via: &str) -> Res {
                 }
             });
             let (rule, what) = if ver < km.floor { ("removed-value", "a removed / cleared value") } else { ("stale-value", "an older version") };
+            if case.get("wrap") != 0 && restarts > 0 {
+                // the tombstone log of this run wraps: deletions beyond its capacity are outside the claim, the lost
+                // tombstone lets the removed (or an older) copy come back
+                hist::probe("older_value_excused_by_wrapped_tombstone_log");
+                return Res { tag: Res::HIT, key: k, ver, w: len as u32, aux: 3 };
+            }
             shape.push(("oversize_current", km.oversize_shed.to_string()));
             shape.push(("key_class", key_class(case, k).to_string()));
             if ver < km.floor {
